@@ -4,52 +4,91 @@
 (*   Write(b)        w.rw.Write(b)            (the code is not touched)      *)
 (*   SetImplicitSuccess()  w.code = cmp.Or(w.code, 200)                      *)
 (*   Reset(rw)       w.rw = rw; w.code = 0                                   *)
-(*   Code(), Unwrap() are the observations.                                  *)
+(*   Hijack()        http.NewResponseController(w.rw).Hijack()               *)
+(*   Code(), Unwrap() are the observations; Flush / SetReadDeadline ... are  *)
+(*   reached by http.ResponseController through Unwrap.                      *)
 (* Two underlying writers exist so that Reset can be seen to redirect.       *)
 (* Protocol (documentation): SetImplicitSuccess "should be called after the  *)
 (* handler has finished", so no WriteHeader / Write follows it until Reset.  *)
 EXTENDS Integers, Sequences, FiniteSets, TLC
 
-CONSTANTS MaxSteps, Codes
+CONSTANTS MaxSteps, Codes,
+          Variant    \* "asWritten" | "stickyHijack" (design mutation: a `hijacked` flag that Reset forgets)
 
 VARIABLES code,    \* Go: w.code
           base,    \* Go: w.rw  (1 or 2)
+          hijacked,\* no such field as written: always FALSE.  (stickyHijack: set by a successful Hijack)
           under,   \* calls received by each underlying writer
+          rets,    \* results of the Hijack calls so far: "ok", "fail", "unsupported"
           passed,  \* codes passed to WriteHeader since the last Reset / creation
           wrote,   \* whether Write or WriteHeader was called since the last Reset / creation
           implicit,\* whether SetImplicitSuccess was called since then
+          fresh,   \* the last call was Reset (or nothing was called yet)
+          taken,   \* a Hijack succeeded since the last Reset: the connection is the handler's, the
+                   \* writer must not be used any more (net/http), so no further call is modelled
           steps
 
-vars == <<code, base, under, passed, wrote, implicit, steps>>
+vars == <<code, base, hijacked, under, rets, passed, wrote, implicit, fresh, taken, steps>>
 
-Init == /\ code = 0 /\ base = 1
+(* Underlying writer 1 is an http.Hijacker and http.Flusher (its Hijack     *)
+(* succeeds or fails as scripted), writer 2 is a bare http.ResponseWriter.   *)
+Init == /\ code = 0 /\ base = 1 /\ hijacked = FALSE
         /\ under = <<(<<>>), (<<>>)>>
-        /\ passed = <<>> /\ wrote = FALSE /\ implicit = FALSE
+        /\ rets = <<>>
+        /\ passed = <<>> /\ wrote = FALSE /\ implicit = FALSE /\ fresh = TRUE /\ taken = FALSE
         /\ steps = 0
 
+Sticky == Variant = "stickyHijack"
+Forward(call) == IF Sticky /\ hijacked THEN under ELSE [under EXCEPT ![base] = Append(@, call)]
+
 WriteHeader(c) ==
-    /\ ~implicit
-    /\ code' = c
-    /\ under' = [under EXCEPT ![base] = Append(@, [op |-> "wh", c |-> c])]
+    /\ ~implicit /\ ~taken
+    /\ code' = IF Sticky /\ hijacked THEN code ELSE c
+    /\ under' = Forward([op |-> "wh", c |-> c])
     /\ passed' = Append(passed, c)
-    /\ wrote' = TRUE
-    /\ UNCHANGED <<base, implicit>>
+    /\ wrote' = TRUE /\ fresh' = FALSE
+    /\ UNCHANGED <<base, hijacked, rets, implicit, taken>>
 
 Write ==
-    /\ ~implicit
-    /\ under' = [under EXCEPT ![base] = Append(@, [op |-> "w", c |-> 0])]
-    /\ wrote' = TRUE
-    /\ UNCHANGED <<code, base, passed, implicit>>
+    /\ ~implicit /\ ~taken
+    /\ under' = Forward([op |-> "w", c |-> 0])
+    /\ wrote' = TRUE /\ fresh' = FALSE
+    /\ UNCHANGED <<code, base, hijacked, rets, passed, implicit, taken>>
+
+(* Hijack(): http.NewResponseController(w.rw).Hijack() - the result is the  *)
+(* underlying writer's; mode 1: it succeeds, 2: it fails.                    *)
+Hijack(mode) ==
+    /\ ~implicit /\ ~taken
+    /\ taken' = (base = 1 /\ mode = 1)
+    /\ IF base = 2
+         THEN /\ rets' = Append(rets, "unsupported") /\ UNCHANGED <<under, hijacked>>
+         ELSE /\ under' = [under EXCEPT ![base] = Append(@, [op |-> "hj", c |-> mode])]
+              /\ rets' = Append(rets, IF mode = 1 THEN "ok" ELSE "fail")
+              /\ hijacked' = (hijacked \/ (Sticky /\ mode = 1))
+    /\ fresh' = FALSE
+    /\ UNCHANGED <<code, base, passed, wrote, implicit>>
+
+(* http.NewResponseController(w).Flush(): through Unwrap to the underlying  *)
+(* writer, if that is an http.Flusher                                        *)
+Flush ==
+    /\ ~implicit /\ ~taken
+    /\ under' = IF base = 1 THEN [under EXCEPT ![base] = Append(@, [op |-> "fl", c |-> 0])] ELSE under
+    /\ fresh' = FALSE
+    /\ UNCHANGED <<code, base, hijacked, rets, passed, wrote, implicit, taken>>
 
 SetImplicit ==
     /\ code' = IF code = 0 THEN 200 ELSE code
-    /\ implicit' = TRUE
-    /\ UNCHANGED <<base, under, passed, wrote>>
+    /\ implicit' = TRUE /\ fresh' = FALSE
+    /\ UNCHANGED <<base, hijacked, under, rets, passed, wrote, taken>>
 
 Reset(b) ==
     /\ base' = b /\ code' = 0
-    /\ passed' = <<>> /\ wrote' = FALSE /\ implicit' = FALSE
-    /\ UNCHANGED under
+    /\ passed' = <<>> /\ wrote' = FALSE /\ implicit' = FALSE /\ fresh' = TRUE /\ taken' = FALSE
+    /\ UNCHANGED <<hijacked, under, rets>>           \* as written there is nothing else to clear
+
+(* Fresh after Reset: in every field the wrapper is what                     *)
+(* NewCodeRecorderResponseWriter(base) returns.                              *)
+FreshAfterReset == fresh => (code = 0 /\ hijacked = FALSE)
 
 (* Documented observations.  Code(): "the status code that was set" once     *)
 (* SetImplicitSuccess has been called -- 200 when none was; 0 before that    *)
@@ -72,9 +111,12 @@ Act(o) == \/ o.op = "wh" /\ WriteHeader(o.c)
           \/ o.op = "w" /\ Write
           \/ o.op = "impl" /\ SetImplicit
           \/ o.op = "reset" /\ Reset(o.c)
+          \/ o.op = "hj" /\ Hijack(o.c)
+          \/ o.op = "fl" /\ Flush
 
 Alphabet == {[op |-> "wh", c |-> c] : c \in Codes} \cup {[op |-> "w", c |-> 0], [op |-> "impl", c |-> 0]}
             \cup {[op |-> "reset", c |-> b] : b \in {1, 2}}
+            \cup {[op |-> "hj", c |-> m] : m \in {1, 2}} \cup {[op |-> "fl", c |-> 0]}
 
 Next == /\ steps < MaxSteps
         /\ steps' = steps + 1
